@@ -709,6 +709,9 @@ def access_kind(f, n):
             if nm.startswith('std::'):
                 return 'rmw'  # non-const std member: treat as mutation
             return 'call'
+        if k == 'VarDecl' and (p.get('t') or '').endswith('&') and not (p.get('t') or '').endswith('&&') and \
+                not (p.get('t') or '').startswith('const ') and 'const &' not in (p.get('t') or ''):
+            return 'addr'        # bound to a non-const reference: may be written through it
         if k == 'BinaryOperator' and p.get('op') in ASSIGN_OPS and kids(p)[0] is cur:
             return 'write' if p['op'] == '=' else 'rmw'
         if k == 'CompoundAssignOperator' and kids(p)[0] is cur:
